@@ -9,7 +9,7 @@ full probe battery (heap scan, every index by point and ordered range through th
 through the planner, with stale and refreshed statistics).  C10: 1-4 tables with 1-4 columns, clean and
 crash-style stops, CREATE TABLE after restarts; after every restart and every later CREATE each table is
 read by name."""
-import os, shutil, collections
+import os, shutil, collections, json, random
 import vlib
 from vlib import Inconclusive
 from . import register
@@ -49,11 +49,54 @@ def check_c09(ctx):
          "TLC trace validation against SqlModel"])
 
 
+def catalog_design(ctx):
+    """Design level (spec/Catalog): identity, schema and index attachment across graceful and crash-style restarts."""
+    vlib.model_check(ctx, "Catalog", "Catalog", "MC_fixed.cfg", workers=8)        # both repairs: all invariants hold
+    vlib.model_check(ctx, "Catalog", "Catalog", "MC_coded_skip.cfg", workers=8)   # the tree as it is, without B-tree indexes
+    r = vlib.tlc(ctx, "Catalog", "Catalog", "MC_coded.cfg", workers=4, name="Catalog-as-coded")
+    if r["rc"] == 0 or not ("RestartsSucceed" in r["out"] or "IndexFresh" in r["out"]):
+        raise Inconclusive("the as-coded Catalog model no longer exhibits KF-C10-btree-reattach-after-crash: model and known_findings.json disagree")
+    r = vlib.tlc(ctx, "Catalog", "Catalog", "MC_oid.cfg", workers=4, name="Catalog-oid-defect")
+    if r["rc"] == 0 or "Identity" not in r["out"]:
+        raise Inconclusive("the Catalog model with the pinned tree's nextTableID reload no longer fails: the model lost its sensitivity")
+
+
+def catalog_walks(ctx):
+    """spec -> code: restart histories that take every edge of the Catalog state graph, on file-backed databases."""
+    dot = os.path.join(ctx.work, "catalog.dot")
+    vlib.model_check(ctx, "Catalog", "Catalog", "MC_walk.cfg", workers=1, extra=["-dump", "dot,actionlabels", dot], name="graph-catalog")
+    inits, nodes, edges = vlib.parse_dot(dot)
+    os.remove(dot)
+    walks, total, covered = vlib.edge_cover(inits, edges, rng=random.Random(ctx.seed), max_walk=40)
+    if covered < total:
+        raise Inconclusive("walker covered %d of %d edges" % (covered, total))
+    ops = [[[a] + args for a, args in (vlib.parse_label(l) for l in w)] for w in walks]
+    if ctx.tier != "thorough":                      # quick: a seeded third of the histories
+        random.Random(ctx.seed).shuffle(ops)
+        ops = ops[:max(40, len(ops) // 3)]
+    wf = os.path.join(ctx.work, "catalog-walks.json")
+    json.dump(ops, open(wf, "w"))
+    tr = os.path.join(ctx.work, "c10walk.ndjson")
+    scratch = "/dev/shm/verif-C10w-%d" % os.getpid()
+    shutil.rmtree(scratch, ignore_errors=True)
+    try:
+        vlib.vdrive(ctx, ["sql", "c10walk", wf, tr, scratch], timeout=3000, ok_codes=(0, 3))
+    finally:
+        shutil.rmtree(scratch, ignore_errors=True)
+    res = vlib.validate(ctx, FAM, "SqlModelTrace", "Trace.cfg", tr, name="val-c10walk", timeout=3400)
+    judge(ctx, res, tr, "restart histories from the Catalog state graph")
+    return dict(graph_states=len(nodes), graph_edges=total, histories_total=len(walks), histories_run=len(ops),
+                events=dict(count_events(tr)))
+
+
 @register("C10")
 def check_c10(ctx):
+    catalog_design(ctx)
+    wcov = catalog_walks(ctx)
     tr, c = run(ctx, "C10", 1200 if ctx.tier == "thorough" else 60)
     vlib.write_evidence(ctx, "model_checking", dict(
         states=ctx.states, transitions=ctx.transitions, traces_validated_against_impl=ctx.traces,
-        samples=ctx.samples, exhaustive=False, events=dict(c), events_validated=ctx.events),
+        samples=ctx.samples, exhaustive=False, events=dict(c), events_validated=ctx.events, catalog_graph_histories=wcov,
+        design_model="Catalog.tla (2 table names x {skip list, B-tree}, 3 stops, graceful and crash-style; Identity, UniqueOids, RestartsSucceed, IndexFresh): repaired model and as-coded model without B-trees pass; as-coded with B-trees exhibits KF-C10; the pinned tree's nextTableID reload violates Identity"),
         ["crash-style stops are ShutdownForTescase (files closed, nothing flushed) between statements; crash points inside statements belong to C01/C02",
          "TLC trace validation against SqlModel"])
